@@ -1,4 +1,5 @@
 import Cgm.Lemmas.AuditCmd
 import Cgm.E2E.C04
 import Cgm.E2E.C04h
+import Cgm.E2E.C04i
 #audit_namespace Cg.E2E.C04
